@@ -142,7 +142,7 @@ def main():
         rng = random.Random(seed * 1000003 + k)
         if args.replay:
             rp = json.load(open(args.replay))
-            cases = [stream.decode_case(rp["case"])] if rp.get("stream") == sname and hasattr(stream, "decode_case") else []
+            cases = [common.uncanon(rp["case"])] if rp.get("stream") == sname else []
         else:
             cases = stream.generate(rng, tier) if not hasattr(stream, "generate_for") else stream.generate_for(prop, rng, tier)
         pairs = []
